@@ -2,3 +2,4 @@ pub mod choice;
 pub mod engine;
 pub mod props;
 pub mod testalloc;
+pub mod mval;
